@@ -218,6 +218,60 @@ def term_step(c, harness, only=None, launched=None):
                     dict(termcase=dict(hang=hang, last=last), rc=rc, log=out[-2000:]))
     return not stalls and rc == 0
 
+def page_step(c, harness, only=None):
+    """huge and ALLOCATABLE paging values (2^28 .. 2^47) in a child process under an address-space limit (harness c10_page.go):
+    evaluation that allocates in proportion to a skip / limit literal dies there with `fatal error: out of memory`"""
+    import shutil
+    args = [harness, "c10", "--pagecase", "1", "--out", c.work]
+    if only:
+        args += ["--pageonly", only]
+    t0 = time.time()
+    rc, out = vlib.run(args, timeout=600)
+    lines = [l.split() for l in out.split("\n")]
+    tmp = [l[1] for l in lines if len(l) == 2 and l[0] == "TMP"]
+    limit = [l for l in lines if l and l[0] == "LIMIT" and len(l) == 3]
+    nolimit = [l for l in lines if l and l[0] == "NOLIMIT"]
+    ran = [l[1] for l in lines if len(l) == 2 and l[0] == "RUN"]
+    ok = [l[1] for l in lines if len(l) == 2 and l[0] in ("OK", "REJECTED")]
+    panics = [l for l in lines if len(l) == 5 and l[0] == "PANIC"]
+    at = [l for l in lines if len(l) == 3 and l[0] == "AT"]
+    done = [l for l in lines if l and l[0] == "DONE"]
+    c.cov["huge_paging_under_memory_limit"] = dict(
+        wall_s=round(time.time() - t0, 1), filters=len(ran), finished=len(ok), address_space_limit_bytes=int(limit[0][2]) if limit else None,
+        mapped_before_bytes=int(limit[0][1]) if limit else None, not_limited=" ".join(nolimit[0][1:]) if nolimit else None,
+        rule="child process `storageharness c10 --pagecase 1`: RLIMIT_AS = mapped + 3 GB, then 3 predicates x 6 scanner-selecting sort clauses x "
+        "(limit L, skip 1 limit L, skip L, skip L limit L) + sub-query paging, L in 2^28, 2^31-1, 2^32, 10^12, 2^40, 2^47, through QueryIds / QueryIdsC / "
+        "IterateIds / IterateValidIds / QueryWithCursorC over every root; a death of the child while a filter runs (out of memory) or a panic is a violation")
+    if only:
+        for l in lines:
+            if l:
+                vlib.log("REPLAY " + " ".join(l))
+    how = ("stores and datasets of harness/cmd/storageharness/c10_store.go (c10sBuild); inside db.View: store.%s(tx, filter) with the address space of the process "
+           "limited (ulimit -v) - without a limit the call tries to allocate memory in proportion to the limit / skip literal")
+    for l in panics[:3]:
+        site, api, where, text_r = l[1], l[2], l[3], l[4]
+        c.violation("C10:panic-eval:" + site, "filter %r parses against the bolt-backed store and Store.%s panics in %s when it is evaluated over the dataset %s"
+                    % (runes(text_r), api, site, where),
+                    dict(pagecase=dict(filter=text_r), filter=runes(text_r), filter_go=go_literal(text_r), api=api, dataset=where, site=site, how_to_reproduce=how % api))
+    if rc != 0 or not done:
+        running = ran[-1] if len(ran) > len(ok) + len(panics) else None
+        fatal = [ln for ln in out.split("\n") if ln.startswith("fatal error:") or ln.startswith("runtime: out of memory") or "cannot allocate" in ln]
+        if running is not None:
+            api, where = (at[-1][1], at[-1][2]) if at else ("?", "?")
+            c.violation("C10:eval-allocates-by-paging-literal",
+                        "filter %r parses against the bolt-backed store and evaluating it (Store.%s, dataset %s) kills the process: %s. The datasets hold a dozen rows; the memory "
+                        "asked for follows the skip / limit literal of the filter text (address space limited to mapped + 3 GB; an unlimited process tries to allocate it)"
+                        % (runes(running), api, where, "; ".join(fatal[:2]) or ("rc=%s" % rc)),
+                        dict(pagecase=dict(filter=running), filter=runes(running), filter_go=go_literal(running), api=api, dataset=where, rc=rc, log=out[-1500:],
+                             how_to_reproduce=how % api))
+        else:
+            c.violation("C10:harness-run", "the huge-paging child process failed outside a filter (rc=%s): %s" % (rc, out[-500:]),
+                        dict(correspondence="harness run", log=out[-3000:]), no_input=True)
+    for t in tmp:
+        if os.path.basename(t).startswith("c10s") and os.path.isdir(t):
+            shutil.rmtree(t, ignore_errors=True)
+    return rc == 0 and not panics
+
 
 def main(argv):
     c = vlib.Check(PID, argv)
@@ -251,6 +305,9 @@ def main(argv):
             term_step(c, harness, only="%s,%d,%s,%d" % (tc["family"], tc["n"], tc["variant"], tc["entry"]))
         else:
             term_step(c, harness)
+        return c.finish()
+    if c.replay and "pagecase" in json.load(open(c.replay)):
+        page_step(c, harness, only=json.load(open(c.replay))["pagecase"]["filter"])
         return c.finish()
     if c.replay:
         rp = json.load(open(c.replay))
@@ -444,6 +501,8 @@ def main(argv):
                         dict(scalecase=20, filter="a" + " and a or a" * 20, timeout_s=limit, finished=scale, rc=rc))
     if term_bg is not None:
         term_step(c, harness, launched=term_bg)
+    if not c.replay:
+        page_step(c, harness)
     c.cov["evaluations"] = evaluations
     c.cov["cases"] = len(cases)
     c.cov["distinct_nontrivial"] = len(distinct)
